@@ -152,3 +152,105 @@ Theorem C16_b64_lpf_hull_enlarged : forall alpha o x lo hi A, 0 <= alpha <= 1 ->
   lo - lpf_B eps64 eta64 A <= lpf_iter (Rnd_ops rnd64) alpha o x <= hi + lpf_B eps64 eta64 A.
 Proof. exact b64_lpf_hull_enlarged. Qed.
 Print Assumptions C16_b64_lpf_hull_enlarged.
+
+(* ------------------------------------------------------------------------------------------------------------------
+   ROUNDED ARITHMETIC, the transfer function (C16/TfRound.v): a_tf_iter at Rnd_ops rnd is one recursive summation of the
+   rounded products num_i * input_i (added) and den_j * output_j (subtracted), started from 0.  For EVERY pair of orders,
+   every state, every std_model rnd eps eta (|rnd v - v| <= eps |v| + eta, rnd 0 = 0); overflow outside the model.
+   dot a b = sum a_i b_i, adot a b = sum |a_i b_i| over the common length; U = input delay line after the push, Y = output
+   delay line: the CURRENT (already rounded) histories. *)
+From LibaV Require Import C16.TfRound.
+
+(* one step, every state: the new state, the reference value (what R_ops returns from the same state), the bound with
+   m = number of products formed *)
+Theorem C16_round_tf_step : forall (rnd : R -> R) eps eta, std_model rnd eps eta -> forall (s : tf (T := R)) (x : R),
+  let inp := push_fore (input s) x in
+  let m := (length (combine (num s) inp) + length (combine (den s) (output s)))%nat in
+  let y := snd (tf_iter (Rnd_ops rnd) s x) in
+  fst (tf_iter (Rnd_ops rnd) s x) = {| num := num s; den := den s; input := inp; output := push_fore (output s) y |} /\
+  snd (tf_iter R_ops s x) = dot (num s) inp - dot (den s) (output s) /\
+  Rabs (y - (dot (num s) inp - dot (den s) (output s)))
+    <= ((1 + eps) ^ (m + 1) - 1) * (adot (num s) inp + adot (den s) (output s)) + 2 * INR m * eta * (1 + eps) ^ (m + 1).
+Proof. exact tf_iter_round. Qed.
+Print Assumptions C16_round_tf_step.
+
+(* in terms of the orders n = nn + nd, and the classical gamma_(n+1) form *)
+Theorem C16_round_tf_step_gamma : forall (rnd : R -> R) eps eta, std_model rnd eps eta -> forall (s : tf (T := R)) (x : R),
+  let inp := push_fore (input s) x in
+  let n := (length (num s) + length (den s))%nat in
+  let y := snd (tf_iter (Rnd_ops rnd) s x) in
+  Rabs (y - (dot (num s) inp - dot (den s) (output s)))
+    <= ((1 + eps) ^ (n + 1) - 1) * (adot (num s) inp + adot (den s) (output s)) + 2 * INR n * eta * (1 + eps) ^ (n + 1) /\
+  (INR (n + 1) * eps < 1 ->
+   Rabs (y - (dot (num s) inp - dot (den s) (output s)))
+    <= gamma eps (n + 1) * (adot (num s) inp + adot (den s) (output s)) + 2 * INR n * eta * (1 + gamma eps (n + 1))).
+Proof.
+  intros rnd eps eta M s x. cbv zeta.
+  exact (conj (tf_iter_round_orders rnd eps eta M s x) (tf_iter_round_gamma rnd eps eta M s x)).
+Qed.
+Print Assumptions C16_round_tf_step_gamma.
+
+(* one rounding fewer when rnd is idempotent (and odd, if no numerator product is formed) *)
+Theorem C16_round_tf_step_sharp : forall (rnd : R -> R) eps eta, std_model rnd eps eta -> forall (s : tf (T := R)) (x : R),
+  (forall v, rnd (rnd v) = rnd v) ->
+  let inp := push_fore (input s) x in
+  (combine (num s) inp <> [] \/ forall v, rnd (- v) = - rnd v) ->
+  let m := (length (combine (num s) inp) + length (combine (den s) (output s)))%nat in
+  let y := snd (tf_iter (Rnd_ops rnd) s x) in
+  (1 <= m)%nat ->
+  Rabs (y - (dot (num s) inp - dot (den s) (output s)))
+    <= ((1 + eps) ^ m - 1) * (adot (num s) inp + adot (den s) (output s)) + (2 * INR m - 1) * eta * (1 + eps) ^ m.
+Proof. exact tf_iter_round_sharp. Qed.
+Print Assumptions C16_round_tf_step_sharp.
+
+(* a whole run from the zero state, every input sequence: the computed outputs satisfy the difference equation of
+   C16_tf_difference_equation (with the COMPUTED outputs in the feedback sum) up to the one-step residual
+   tf_res_bound eps eta nm dn U Y = ((1+eps)^(n+1) - 1) (adot nm U + adot dn Y) + 2 n eta (1+eps)^(n+1), n = nn + nd *)
+Theorem C16_round_tf_run_residual : forall (rnd : R -> R) eps eta, std_model rnd eps eta -> forall nm dn us k,
+  (k < length us)%nat ->
+  let ys := snd (tf_run (Rnd_ops rnd) (tf_init (Rnd_ops rnd) nm dn) us) in
+  let U := recent (length nm) (rev (firstn (S k) us)) in
+  let Y := recent (length dn) (rev (firstn k ys)) in
+  Rabs (nth k ys 0 - (dot nm U - dot dn Y))
+    <= ((1 + eps) ^ (length nm + length dn + 1) - 1) * (adot nm U + adot dn Y)
+       + 2 * INR (length nm + length dn) * eta * (1 + eps) ^ (length nm + length dn + 1).
+Proof. exact tf_run_round_residual. Qed.
+Print Assumptions C16_round_tf_run_residual.
+
+(* the same as an exact statement: the computed output sequence is the exact response (over R) to the inputs with a
+   disturbance r_k added at the summing node of step k, |r_k| within the residual bound; hence computed = exact + e with e
+   the exact response of the all-pole filter [1]/den to r (no bound on e is claimed: it depends on the stability of 1/den) *)
+Theorem C16_round_tf_run_perturbed : forall (rnd : R -> R) eps eta, std_model rnd eps eta -> forall nm dn us,
+  let ys := snd (tf_run (Rnd_ops rnd) (tf_init (Rnd_ops rnd) nm dn) us) in
+  exists rs, length rs = length us /\
+    ys = spec_run_d nm dn [] [] us rs /\
+    ys = lc 1 (tf_out nm dn us) 1 (tf_out [1] dn rs) /\
+    forall k, (k < length us)%nat ->
+      Rabs (nth k rs 0) <= tf_res_bound eps eta nm dn (recent (length nm) (rev (firstn (S k) us)))
+                                                (recent (length dn) (rev (firstn k ys))).
+Proof.
+  intros rnd eps eta M nm dn us ys.
+  destruct (tf_run_round_perturbed rnd eps eta M nm dn us) as (rs & Hl & E & B).
+  exists rs. split; [exact Hl|]. split; [exact E|]. split; [|exact B].
+  change ys with (r_tf_out rnd nm dn us). rewrite E, !tf_out_spec.
+  exact (spec_run_d_split nm dn us rs [] [] [] [] Hl eq_refl).
+Qed.
+Print Assumptions C16_round_tf_run_perturbed.
+
+(* IEEE binary64 (eps64 = 2^-53, eta64 = 2^-1075; rnd64 is idempotent and odd, by Flocq): the sharp one-step bound for
+   every state that forms at least one product, and the run *)
+Theorem C16_b64_tf_round :
+  (forall (s : tf (T := R)) (x : R),
+     let inp := push_fore (input s) x in
+     let m := (length (combine (num s) inp) + length (combine (den s) (output s)))%nat in
+     let y := snd (tf_iter (Rnd_ops rnd64) s x) in
+     (1 <= m)%nat ->
+     Rabs (y - (dot (num s) inp - dot (den s) (output s)))
+       <= ((1 + eps64) ^ m - 1) * (adot (num s) inp + adot (den s) (output s)) + (2 * INR m - 1) * eta64 * (1 + eps64) ^ m) /\
+  (forall nm dn us k, (k < length us)%nat ->
+     let ys := snd (tf_run (Rnd_ops rnd64) (tf_init (Rnd_ops rnd64) nm dn) us) in
+     let U := recent (length nm) (rev (firstn (S k) us)) in
+     let Y := recent (length dn) (rev (firstn k ys)) in
+     Rabs (nth k ys 0 - (dot nm U - dot dn Y)) <= tf_res_bound eps64 eta64 nm dn U Y).
+Proof. exact (conj tf_iter_round_binary64 tf_run_round_binary64). Qed.
+Print Assumptions C16_b64_tf_round.
